@@ -32,6 +32,10 @@ def set_repr_rows(n: int | None):
 	_REPR_ROWS_DEFAULT = n if n is not None else 12
 
 
+# Marks the elided middle of a truncated preview (never equal to a data value)
+_ELLIPSIS = object()
+
+
 def _needs_quote(name: str) -> bool:
 	"""Determine if a column name needs quoting in repr output.
 	
@@ -77,14 +81,14 @@ def _format_column(col, max_preview: int | None = None) -> List[str]:
 	# Truncate with symmetric preview
 	vals = col._underlying
 	if len(vals) > max_preview * 2:
-		preview = list(vals[:max_preview]) + ['...'] + list(vals[len(vals) - max_preview:])
+		preview = list(vals[:max_preview]) + [_ELLIPSIS] + list(vals[len(vals) - max_preview:])
 	else:
 		preview = list(vals)
 
 	# Type-sensitive formatting
 	out = []
 	for v in preview:
-		if v == '...':
+		if v is _ELLIPSIS:
 			out.append('...')
 		elif v is None:
 			out.append('None')
